@@ -1025,7 +1025,12 @@ func (x *runner) serveQueries() {
 		var stop refmodel.Hash
 		stopClass := "zero"
 		end := tip
-		switch rng.Intn(4) {
+		mode := rng.Intn(4)
+		if q == 0 && tip > 2000 {
+			// the full answer: from genesis, no stop - exactly 2000 headers
+			loc, start, mode = []refmodel.Hash{x.rig.Genesis}, 0, 3
+		}
+		switch mode {
 		case 0:
 			if start < tip {
 				sh := start + 1 + int32(rng.Intn(int(tip-start)))
@@ -1051,6 +1056,7 @@ func (x *runner) serveQueries() {
 				continue
 			}
 			if c.Dead() {
+				x.fail("served-headers|"+x.s.Engine+"|stop="+stopClass+"|connection-dropped-instead-of-an-answer", fmt.Sprintf("the service dropped the connection of a peer that asked getheaders (start %d, expected %d headers)", start, end-start))
 				return
 			}
 			if x.s.Engine == "exp" {
